@@ -543,7 +543,7 @@ def guard_sites(prog):
     return sorted(out)
 
 
-def bfs(prog, steps, max_depth=6, max_confs=200, throws=False):
+def bfs(prog, steps, max_depth=6, max_confs=200, throws=False, keep_unspec=False):
     """breadth-first search over abstract configurations.  steps: list of step descriptors
     (('ev', name) | ('stop',) | ('start',)).  Returns list of (conf, script) where script is a
     list of (step, decisions) reaching conf from the constructed (not started) machine."""
@@ -566,6 +566,11 @@ def bfs(prog, steps, max_depth=6, max_confs=200, throws=False):
                     if pk not in seen and len(seen) < max_confs and len(post.queue) + len(post.deferred) <= 3 and not post.unspec:
                         seen[pk] = (post, script + [(st0, dec)])
                         order.append(pk); nxt.append(pk)
+                    elif keep_unspec and post.unspec and len(seen) < max_confs:
+                        # an entry cascade aborted by an exception: kept as a leaf (the reference cannot continue from it),
+                        # one per throwing position
+                        pk = (pk, tuple(sorted(k_ for k_, v_ in dec.items() if k_ >= 1000 and v_)))
+                        if pk not in seen: seen[pk] = (post, script + [(st0, dec)]); order.append(pk)
         frontier = nxt
         if not frontier: break
     return [seen[k] for k in order], edges
